@@ -359,10 +359,6 @@ func DriverMain(id, tier string, seed int64, exe, raceExe, replay string) int {
 	for _, d := range []string{"child", "scratch", "race"} {
 		_ = os.MkdirAll(filepath.Join(out, d), 0o755)
 	}
-	old, _ := filepath.Glob(filepath.Join(out, "violation-*.json"))
-	for _, p := range old {
-		_ = os.Remove(p)
-	}
 	defer os.RemoveAll(filepath.Join(out, "scratch"))
 
 	var onlyCase string
@@ -378,6 +374,10 @@ func DriverMain(id, tier string, seed int64, exe, raceExe, replay string) int {
 			return 3
 		}
 		onlyCase, seed, tier = v.Case, v.Seed, v.Tier
+	}
+	old, _ := filepath.Glob(filepath.Join(out, "violation-*.json"))
+	for _, p := range old {
+		_ = os.Remove(p)
 	}
 
 	all := chk.Cases(tier, seed)
